@@ -118,6 +118,8 @@ def sweep(props, size='quick', seed=0, repo=None):
             fails.append(o)
     if summary is None:
         raise NativeUnavailable('native oracle crashed (exit %s): %s' % (p.returncode, (p.stderr or p.stdout)[-400:]))
+    if summary.get('failures', 0) and not fails:
+        raise NativeUnavailable('native oracle reported %d failures but none could be parsed' % summary['failures'])
     r = {'summary': summary, 'failures': fails, 'cmd': ' '.join(cmd), 'wall_s': round(time.time() - t0, 2), 'cached': False,
          'bound': 'deterministic corpus "%s" seed %s: %d single cases + %d groups of 9 builds (8 forced masks + automatic); all 480 (mode, level, version) capacity boundaries, all 40 versions, all 256 byte values for mode detection' % (size, seed, summary.get('single_cases', 0), summary.get('mask_groups', 0))}
     try:
